@@ -143,6 +143,53 @@ def solved_small(rng, f, x, xbits):
     return v, ["carry-generate-W%d" % W] + (["carry-propagate-run"] if run else []) + (["carry-at-top-limb"] if j + run == nl - 1 else [])
 
 
+def solved_square_column(rng, f):
+    """Raw value with three adjacent non-zero limbs (a0, a1, a2) chosen so that, in the schoolbook square, the 2W-bit column
+    that receives the doubled cross products 2*a0*a1 (high part), 2*a0*a2 and 2*a1*a2 (low part) is all ones (or all ones minus a
+    little): adding the square term and an incoming carry then ripples through the whole column. W = 32 or 64; the limbs are the
+    internal ones (Montgomery representation undone for the Montgomery fields)."""
+    W = rng.choice([32, 32, 64])
+    nl = f.bits // W
+    if nl < 4:
+        return None
+    M2 = (1 << (2 * W)) - 1
+    a2 = rng.choice([1, 1, 2, 3])
+    c = rng.randrange(1, 7)
+    a1 = ((1 << W) - c) // (2 * a2)
+    a1 += rng.choice([0, 0, 1, -1])
+    if not (0 < a1 < (1 << W)):
+        return None
+
+    def col(a0):
+        return ((2 * a0 * a1) >> W) + 2 * a0 * a2 + (((2 * a1 * a2) << W) & M2)
+    target = M2 - rng.choice([0, 0, 0, 1, 2])
+    base = (target - (((2 * a1 * a2) << W) & M2))
+    if base <= 0:
+        return None
+    den = 2 * a2 + (2 * a1) / float(1 << W)
+    a0 = int(base / den)
+    best = None
+    for d in range(-6, 7):
+        x = a0 + d
+        if 0 < x < (1 << W) and (col(x) & M2) >= M2 - 2 and col(x) <= M2 + 2:
+            best = x
+            if (col(x) & M2) == target:
+                break
+    if best is None:
+        return None
+    o = rng.randrange(0, nl - 2)
+    v = (best << (W * o)) | (a1 << (W * (o + 1))) | (a2 << (W * (o + 2)))
+    if rng.randrange(3) == 0 and o >= 1:
+        v |= rng.getrandbits(W) << (W * (o - 1))
+    if v >= (1 << f.bits):
+        return None
+    if f.kind in ("gfgen", "modint"):
+        if v >= f.q:
+            return None
+        v = v * pow(1 << (64 * f.nl), -1, f.q) % f.q
+    return v, ["square-column-all-ones-W%d" % W]
+
+
 def gen_prime(rng, f, n):
     q = f.q
     top = 1 << f.bits
@@ -211,9 +258,17 @@ def gen_prime(rng, f, n):
                 a2 = (base + rng.choice([-1, 0, 1, -2, 2, -rng.randrange(1 << 34), rng.randrange(1 << 34)])) // mfac + rng.choice([0, 0, 1, -1])
                 if 0 <= a2 < top:
                     a = a2; solved = True
+            if op == "square" and rng.randrange(2):
+                for _try in range(8):
+                    sv = solved_square_column(rng, f)
+                    if sv is not None:
+                        a = sv[0]; solved = sv[1]
+                        break
             da, va, ca = operand(rng, f, a)
-            if solved:
+            if solved is True:
                 ca = ca + ["product-at-multiple-of-2^w-or-q"]
+            elif solved:
+                ca = ca + solved
             if op == "neg":
                 r = -va % q
             elif op == "square":
